@@ -258,6 +258,66 @@ def apply_default_rules(tree):
     return apply_rule, mut, req_rule
 
 
+def func_return_rule(tree):
+    """is_function_returning_field: where the declared return type is read from.
+         get_type_hints(f).get("return", ...)      -> FuncHintsResolved   (string annotations are resolved)
+         signature(f).return_annotation            -> FuncRawAnnotation   (a string annotation stays a string)
+       and the rest of the recogniser must be: callable(f), no parameters (else not a field), result
+       `rv == Field or Field in getattr(rv.__args__[0], "__mro__", [])`, any exception -> False."""
+    fn = _func(tree, "is_function_returning_field")
+    if fn is None or len(fn.args.args) != 1:
+        return "FuncUnrecognised"
+    x = fn.args.args[0].arg
+    tries = [n for n in ast.walk(fn) if isinstance(n, ast.Try)]
+    if len(tries) != 1 or len(tries[0].handlers) != 1 or tries[0].orelse or tries[0].finalbody:
+        return "FuncUnrecognised"
+    h = tries[0].handlers[0]
+    if not (h.type is None or _is_name(h.type, "Exception")) or not (
+            len(h.body) == 1 and isinstance(h.body[0], ast.Return) and isinstance(h.body[0].value, ast.Constant)
+            and h.body[0].value.value is False):
+        return "FuncUnrecognised"
+    body = tries[0].body
+    # callable(x) must guard the try (as an `if callable(x) ...:` around it or an early `if not callable(x): return False`)
+    if not any(_is_call(n, "callable", 1) and _is_name(n.args[0], x) for n in ast.walk(fn)):
+        return "FuncUnrecognised"
+    # no-parameters test: some `if len(<sig>.parameters) > 0: raise`
+    def is_params_guard(st):
+        if not (isinstance(st, ast.If) and len(st.body) == 1 and isinstance(st.body[0], ast.Raise) and not st.orelse):
+            return False
+        t = st.test
+        return (isinstance(t, ast.Compare) and len(t.ops) == 1 and isinstance(t.ops[0], ast.Gt)
+                and isinstance(t.comparators[0], ast.Constant) and t.comparators[0].value == 0
+                and _is_call(t.left, "len", 1) and isinstance(t.left.args[0], ast.Attribute)
+                and t.left.args[0].attr == "parameters")
+    if not any(is_params_guard(st) for st in body):
+        return "FuncUnrecognised"
+    # the result expression
+    rets = [st for st in body if isinstance(st, ast.Return)]
+    if len(rets) != 1 or rets[0] is not body[-1]:
+        return "FuncUnrecognised"
+    r = rets[0].value
+    if not (isinstance(r, ast.BoolOp) and isinstance(r.op, ast.Or) and len(r.values) == 2
+            and isinstance(r.values[0], ast.Compare) and isinstance(r.values[0].left, ast.Name)
+            and isinstance(r.values[0].ops[0], ast.Eq) and _is_name(r.values[0].comparators[0], "Field")
+            and isinstance(r.values[1], ast.Compare) and _is_name(r.values[1].left, "Field")
+            and isinstance(r.values[1].ops[0], ast.In)):
+        return "FuncUnrecognised"
+    rv = r.values[0].left.id
+    src = [st.value for st in body if isinstance(st, ast.Assign) and len(st.targets) == 1 and _is_name(st.targets[0], rv)]
+    if len(src) != 1:
+        return "FuncUnrecognised"
+    e = src[0]
+    # get_type_hints(x).get("return", None)
+    if isinstance(e, ast.Call) and isinstance(e.func, ast.Attribute) and e.func.attr == "get" and e.args \
+            and isinstance(e.args[0], ast.Constant) and e.args[0].value == "return" \
+            and _is_call(e.func.value, "get_type_hints", 1) and _is_name(e.func.value.args[0], x):
+        return "FuncHintsResolved"
+    # signature(x).return_annotation, directly or through a local bound to signature(x)
+    if isinstance(e, ast.Attribute) and e.attr == "return_annotation":
+        return "FuncRawAnnotation"
+    return "FuncUnrecognised"
+
+
 # ----------------------------------------------------------------------------- rendering
 
 def rules():
@@ -266,7 +326,8 @@ def rules():
     apply_rule, mut, req_rule = apply_default_rules(st)
     return {"future_rule": future_rule(st), "typing_optional_rule": typing_optional_rule(st),
             "anyof_optional_rule": anyof_optional_rule(mw), "init_default_rule": init_default_rule(st),
-            "apply_default_rule": apply_rule, "mutable_default_types": mut, "required_rule": req_rule}
+            "apply_default_rule": apply_rule, "mutable_default_types": mut, "required_rule": req_rule,
+            "func_return_rule": func_return_rule(st)}
 
 
 def render(r):
@@ -282,13 +343,15 @@ def render(r):
         "Inductive anyof_optional_rule_t := IsOptIfSomeNoneField | IsOptUnrecognised.",
         "Inductive init_default_rule_t := InitDefaultIfTruthy | InitDefaultIfNotNone | InitDefaultUnrecognised.",
         "Inductive apply_default_rule_t := ApplyIfNoTruthyDefault | ApplyUnrecognised.",
-        "Inductive required_rule_t := ReqUnlessDefaultOrOptional | ReqUnrecognised.", "",
+        "Inductive required_rule_t := ReqUnlessDefaultOrOptional | ReqUnrecognised.",
+        "Inductive func_return_rule_t := FuncHintsResolved | FuncRawAnnotation | FuncUnrecognised.", "",
         "Definition future_rule : future_rule_t := %s." % r["future_rule"],
         "Definition typing_optional_rule : typing_optional_rule_t := %s." % r["typing_optional_rule"],
         "Definition anyof_optional_rule : anyof_optional_rule_t := %s." % r["anyof_optional_rule"],
         "Definition init_default_rule : init_default_rule_t := %s." % r["init_default_rule"],
         "Definition apply_default_rule : apply_default_rule_t := %s." % r["apply_default_rule"],
         "Definition required_rule : required_rule_t := %s." % r["required_rule"],
+        "Definition func_return_rule : func_return_rule_t := %s." % r["func_return_rule"],
         "Definition mutable_default_types : list pystr := %s." % E.lst([E.pstr(x) for x in r["mutable_default_types"]]),
         ""]
     return "\n".join(lines) + "\n"
@@ -300,6 +363,7 @@ def regenerate():
     except (OSError, SyntaxError):
         r = {"future_rule": "FutureUnrecognised", "typing_optional_rule": "OptUnrecognised",
              "anyof_optional_rule": "IsOptUnrecognised", "init_default_rule": "InitDefaultUnrecognised",
-             "apply_default_rule": "ApplyUnrecognised", "mutable_default_types": [], "required_rule": "ReqUnrecognised"}
+             "apply_default_rule": "ApplyUnrecognised", "mutable_default_types": [], "required_rule": "ReqUnrecognised",
+             "func_return_rule": "FuncUnrecognised"}
     core.write_if_changed(os.path.join(core.COQDIR, "theories", "Gen", "AnnotGuards.v"), render(r))
     return r
